@@ -152,13 +152,17 @@ def gen_actions(rng):
 
 
 class Side:
-    def __init__(self, kind, script, hcfg=None):
+    def __init__(self, kind, script, hcfg=None, real_ws=False):
         self.transform = (hcfg or {}).get('transform', '')
-        self.sim = scen.make_sim(kind, server_kwargs={
+        self.sim = scen.make_sim(kind, real_ws_driver=real_ws, server_kwargs={
             'ping_interval': PI, 'ping_timeout': PT,
             'max_http_buffer_size': 2000, 'compression_threshold': 16},
             handler_cfg=dict(hcfg or {}, connect=script), policy='fifo')
         self.sim.upgrade_spelling = (hcfg or {}).get('upgrade_spelling', 0)
+        if kind in scen.HTTPB:
+            # (the server options are the same for every history here: the
+            # offer of permessage-deflate follows the connect script instead)
+            self.sim.ws_offer_deflate = sum(1 for x in script if x) % 2 == 1
         for enc in ('gzip', 'deflate'):
             if enc in self.transform:
                 self.sim.poll_headers = {'Accept-Encoding': enc}
@@ -385,7 +389,9 @@ def run_history(rec, case):
     rng = gen.mkrng('c18', case['seed'], case['i'])
     acts, script, hcfg = gen_actions(rng)
     rec.evaluations += 1
-    T = Side('T', script, hcfg)
+    # (the threaded server with its fake driver or, in a third of the
+    # histories, with the real simple_websocket driver)
+    T = Side('T', script, hcfg, real_ws=bool(case.get('tws')))
     # the asyncio server is observed behind the real ASGI adapter or, in a
     # share of the histories, behind the real aiohttp adapter and web server
     A = Side(case.get('aio', 'A'), script, hcfg)
@@ -489,6 +495,8 @@ def run_shard(spec):
         c['aio'] = 'H'
     for c in cases[2::4]:
         c['aio'] = 'N'     # ... and behind the tornado adapter
+    for c in cases[1::3]:
+        c['tws'] = True    # threaded server: the real simple_websocket driver
     scen.run_cases(rec, cases, run_history)
     return rec.result()
 
